@@ -304,6 +304,7 @@ type c20ImgObs struct {
 	Img  string `json:"img"`
 	OK   bool   `json:"ok"`
 	Name string `json:"name"` // xpkg.ToDNSLabel(repository)
+	Src  string `json:"src"`  // xpkg.ParsePackageSourceFromReference(ref) (model: parseSource over ref.String())
 }
 
 type c20Obs struct {
@@ -441,7 +442,7 @@ func c20ImgObsOf(img string) c20ImgObs {
 	if err != nil {
 		return c20ImgObs{Img: img}
 	}
-	return c20ImgObs{Img: img, OK: true, Name: xpkg.ToDNSLabel(ref.Context().RepositoryStr())}
+	return c20ImgObs{Img: img, OK: true, Name: xpkg.ToDNSLabel(ref.Context().RepositoryStr()), Src: xpkg.ParsePackageSourceFromReference(ref)}
 }
 
 // ---------------------------------------------------------------- runner
